@@ -2812,13 +2812,16 @@ class WorkflowGraph(object):
         ref_condition = document['condition']
         import_in_stage = document['stage']
 
-        cond_stage, cond_name, c_file, c_method = FlowIR.ParseDataReferenceFull(ref_condition, import_in_stage)
+        # VV: The stage of the condition is relative to the first stage of the DoWhile document
+        cond_stage, cond_name, c_file, c_method = FlowIR.ParseDataReferenceFull(ref_condition, 0)
+        cond_stage += import_in_stage
         self.log.info("Condition \"reference\" %s is produced by %s" % (
             ref_condition, (cond_stage, cond_name)
         ))
 
+        # VV: Components in different stages of the loop may share the name of the condition-producer, match the stage too
         condition_instances = sorted(
-            [c for c in all_looped_ids if c[1].split('#', 1)[1] == cond_name],
+            [c for c in all_looped_ids if c[0] == cond_stage and c[1].split('#', 1)[1] == cond_name],
             # VV: Sort on iteration number from stage<idx:%d>.<iteration-no:%d>#<name:str>
             key=lambda c: int(c[1].split('#', 1)[0]),
             reverse=True
